@@ -235,6 +235,7 @@ func TestC11(t *testing.T) {
 		map[string]float64{"simulate": 0.5, "checktx": 0.3, "past-height-query": 0.5, "noise-inside-block": 0.5},
 		func(rt *rapid.T, c *harness.Case) {
 			w := chain.GenWorld(rt)
+			w.GovUpgrades = true
 			h := w.GenHistory(rt, 4, 14)
 			c.Opf("%s", w.Describe())
 			plan := make(noisePlan, len(h.Blocks))
